@@ -53,6 +53,7 @@ class Profile:
         self.p_qualify = 0.1           # std::vec::Vec<..>
         self.type_depth = 3
         self.dash_in_rename = 0.3      # renamed keys containing '-'
+        self.p_digit_variant = 0.0     # unit-enum variant named `_` + digit + .. (`_1Red`; Swift puts `_` in front of the camelCased `1Red`: fix 31 of /repo)
         self.kinds = ['struct', 'struct', 'struct', 'unit_enum', 'alg_enum', 'alg_enum', 'alias', 'newtype', 'unit_struct']
         self.allow_const = False
         self.allow_unit_type = True
@@ -316,6 +317,8 @@ class ProgGen:
             for v in r.sample(VARIANT_IDENTS, r.randint(1, 5)):
                 va = Variant()
                 va.ident = v
+                if p.p_digit_variant and r.random() < p.p_digit_variant:    # no draw when the switch is off: the other corpora stay as they were
+                    va.ident = '_' + r.choice('123456789') + v
                 if r.random() < p.p_rename:
                     va.rename = self.key()
                 if r.random() < p.p_skip:
